@@ -19,7 +19,7 @@ from jsonargparse import _typehints as th
 
 from vf.gen import types as G
 from vf.gen.values import hostile_string
-from vf.models.conform import strict
+from vf.models.conform import input_conforms, strict
 from vf.util import call, short
 
 REG = {}  # raw hint -> T, for the internal contract
@@ -185,7 +185,7 @@ def case_basic(ctx, rng):
     # (b) conforming natives through the object channel
     for _ in range(3):
         v = G.conforming(rng, t, hostile=0.25)
-        if strict(v, t) is not None:
+        if input_conforms(v, t) is not None:
             continue  # unsatisfiable restriction somewhere: not a conforming value after all
         o = accept_obj(t, v)
         note(ctx, t, o)
@@ -223,6 +223,20 @@ def case_basic(ctx, rng):
             ctx.violation("accept", f"b2/nearmiss-accepted/{reason}", dict(hint=t.skel, value=short(bad, 400), result=short(o.value)))
         check_a(ctx, t, o, "object", bad)
         flush_contract(ctx, dict(hint=t.skel, value=short(bad)))
+    # castable re-spellings of a conforming value: only conformance of whatever is accepted is judged
+    for _ in range(2):
+        v = G.conforming(rng, t, hostile=0.0)
+        if input_conforms(v, t) is not None:
+            continue
+        lv = lenient_variant(rng, t, G.to_input(t, v))
+        if lv is None:
+            break
+        o = accept_obj(t, lv[0])
+        note(ctx, t, o)
+        ctx.count("mon.a.castable_respelling")
+        ctx.count(f"st.respelling.{lv[1]}.{'accepted' if o.accepted else 'rejected'}")
+        check_a(ctx, t, o, "object", lv[0])
+        flush_contract(ctx, dict(hint=t.skel, value=short(lv[0]), respelled=lv[1]))
     # look-alike strings through argv: only conformance of whatever is accepted is judged
     for _ in range(3):
         s = lookalike(rng, t) if rng.random() < 0.6 else hostile_string(rng)[0]
@@ -231,6 +245,59 @@ def case_basic(ctx, rng):
         ctx.count("mon.a.lookalike_argv")
         check_a(ctx, t, o, "argv", s)
         flush_contract(ctx, dict(hint=t.skel, argv=s))
+
+
+def lenient_variant(rng, t, inp):
+    """The conforming input re-spelled at one position in a form the library may cast (numeral string for a number, int
+    for float, bool or numeral-string key for an int key, member name for an enum...). Acceptance is not judged - the
+    statement does not say which casts are made - only that whatever is accepted conforms. -> (input, label) or None"""
+    import copy as _copy
+
+    inp = _copy.deepcopy(inp)
+    spots = []
+
+    def walk(node, v, setter):
+        k = node.kind
+        if k in ("int", "rnum") and isinstance(v, int) and not isinstance(v, bool) and (k == "int" or node.extra[0] is int):
+            spots.append((lambda: setter(str(v)), "numeral-string-for-int"))
+            spots.append((lambda: setter(float(v)), "integral-float-for-int"))
+        elif k in ("float",) or (k == "rnum" and node.extra[0] is float):
+            if isinstance(v, float) and v.is_integer() and abs(v) < 1e15:
+                spots.append((lambda: setter(int(v)), "int-for-float"))
+            if isinstance(v, (int, float)) and not isinstance(v, bool):
+                spots.append((lambda: setter(repr(v)), "numeral-string-for-float"))
+        elif k == "bool" and isinstance(v, bool):
+            spots.append((lambda: setter("true" if v else "false"), "word-for-bool"))
+            spots.append((lambda: setter(int(v)), "int-for-bool"))
+        elif k == "optional" and v is not None:
+            walk(node.children[0], v, setter)
+        elif k in ("list", "vtuple", "set") and isinstance(v, list):
+            for i, x in enumerate(v):
+                walk(node.children[0], x, lambda nv, i=i: v.__setitem__(i, nv))
+        elif k == "tuple" and isinstance(v, list) and len(v) == len(node.children):
+            for i, (x, c) in enumerate(zip(v, node.children)):
+                walk(c, x, lambda nv, i=i: v.__setitem__(i, nv))
+        elif k == "dict" and isinstance(v, dict):
+            for kk, x in list(v.items()):
+                walk(node.children[0], x, lambda nv, kk=kk: v.__setitem__(kk, nv))
+                if node.extra is int and isinstance(kk, int) and not isinstance(kk, bool):
+                    def rekey(new, kk=kk):
+                        items = [(new if a == kk and type(a) is int else a, b) for a, b in v.items()]
+                        v.clear()
+                        v.update(items)
+                    spots.append((lambda kk=kk, rekey=rekey: rekey(str(kk)), "numeral-string-key-for-int-key"))
+                    if kk in (0, 1):
+                        spots.append((lambda kk=kk, rekey=rekey: rekey(bool(kk)), "bool-key-for-int-key"))
+            if node.extra is int and 1 not in v:
+                spots.append((lambda: v.__setitem__(True, _copy.deepcopy(next(iter(v.values())))) if v else None, "bool-key-for-int-key"))
+
+    box = [inp]
+    walk(t, inp, lambda nv: box.__setitem__(0, nv))
+    if not spots:
+        return None
+    f, label = rng.choice(spots)
+    f()
+    return box[0], label
 
 
 def localise_reject(t, v):
@@ -347,6 +414,24 @@ def case_union(ctx, rng):
         members.append(c)
         if len(members) == n:
             break
+    if rng.random() < 0.3:
+        # sibling containers: same constructor and arity, different leaf types, so that an earlier member can convert some
+        # elements of a value before failing on another one (the later member must still see the value as given)
+        pool = [G.INT, G.FLOAT, G.STR, G.BOOL] + G.RESTRICTED_NUM[:3]
+        shape = rng.choice(["tuple", "tuple", "list", "dict", "set", "vtuple"])
+        arity = rng.choice([2, 2, 3])
+        members, seen = [], set()
+        for _ in range(12):
+            if shape == "tuple":
+                c = G.tuple_t([rng.choice(pool) for _ in range(arity)])
+            else:
+                c = {"list": G.list_t, "dict": G.dict_t, "set": G.set_t, "vtuple": G.vtuple_t}[shape](rng.choice(pool))
+            if c.skel not in seen:
+                seen.add(c.skel)
+                members.append(c)
+            if len(members) == n:
+                break
+        ctx.count("st.union.sibling_containers")
     if len(members) < 2:
         return
     perms = list(itertools.permutations(range(len(members))))
@@ -359,6 +444,8 @@ def case_union(ctx, rng):
         v = G.conforming(rng, m, hostile=0.2)
         if v is not None:
             cands.append(("object", G.to_input(m, v) if not jsonable(v) else v))
+            if jsonable(v) and type(G.to_input(m, v)) is not type(v):
+                cands.append(("object", G.to_input(m, v)))  # also in the form a config file gives it (list for tuple/set)
             if isinstance(G.to_input(m, v), str):
                 cands.append(("argv", G.to_input(m, v)))
         nm = G.nearmiss(rng, m, allow_none=False)
